@@ -1,6 +1,7 @@
 package rules
 
 import (
+	"go/types"
 	"fmt"
 	"go/token"
 	"sort"
@@ -345,7 +346,8 @@ func c13(r *engine.Report, p *engine.Program) {
 			for _, in := range b.Instrs {
 				if s0, ok := in.(*ssa.Select); ok {
 					for i, st := range s0.States {
-						if c, isC := engine.Unwrap(st.Chan).(*ssa.Call); isC && engine.IsCallTo(c.Common(), "time.After") {
+						// the grace-period arm: a receive from a timer channel (time.After, Timer.C, ...)
+						if ch, isCh := st.Chan.Type().Underlying().(*types.Chan); isCh && st.Dir == types.RecvOnly && ch.Elem().String() == "time.Time" {
 							sel, timerIdx = s0, i
 						}
 					}
